@@ -41,7 +41,10 @@ Inductive case :=
   (* a request tree against seeded shared denial state.  Per node, pre-order: which of the three
      permissions the node's question probes (0 RFC 8020 cut consumed, 1 RFC 8198 proof consumed,
      2 shared denial state created, 3 none: a plain alias hop) and whether that happened *)
-| CaseDenial (b : bargs) (t : rtree) (seen : list (N * bool)).
+| CaseDenial (b : bargs) (t : rtree) (seen : list (N * bool))
+  (* the same with a WIRE-BORN root (ParseWire + ResetWire + AllowDirectPack, as the server's listeners
+     enter): the cache's byte ladder runs first on the undecoded request *)
+| CaseDenialWire (b : bargs) (t : rtree) (seen : list (N * bool)).
 
 (* ------------------------------------------------------------------ equality *)
 Definition ipb_eqb (a b : ipb) : bool := (ipb_len a =? ipb_len b) && (ipb_val a =? ipb_val b).
@@ -141,6 +144,8 @@ Definition check_case (c : case) : bool :=
   | CaseCache c ops => check_ops c [] ops
   | CaseDenial b t seen =>
       perms_match (tree_perms (policy_of b) (mk_dctx false false) t) seen
+  | CaseDenialWire b t seen =>
+      perms_match (tree_perms_wire (policy_of b) true t) seen
   end.
 
 (* ------------------------------------------------------------------ specification oracles *)
@@ -417,4 +422,5 @@ Definition spec_case (c : case) : bool :=
       else true
   | CaseCache c ops => spec_ops c [] ops
   | CaseDenial b t seen => negb (root_isolated t) || forallb (fun s => negb (snd s)) seen
+  | CaseDenialWire b t seen => negb (root_isolated t) || forallb (fun s => negb (snd s)) seen
   end.
